@@ -82,8 +82,10 @@ If --internal is specified, then internal nodes are renamed;
 		var treechan <-chan tree.Trees
 		var namemap map[string]string = nil
 		var setregex, setreplace bool
-		setregex = cmd.Flags().Changed("regexp")
-		setreplace = cmd.Flags().Changed("replace")
+		// "none" is the documented default of both options: giving it explicitly
+		// is the same as leaving the option out
+		setregex = renameRegex != "none"
+		setreplace = renameReplaceBy != "none"
 
 		if !(renameTips || renameInternalNodes) {
 			err = errors.New("You should rename at least internal nodes (--internal) or tips (--tips)")
